@@ -114,15 +114,17 @@ def hyp_search(ctx, strategy, check, max_examples, label="main", shrink_calls=40
     from hypothesis import HealthCheck, Phase, given, settings
 
     holder = {"post": 0}
+    failed = {}  # sha(case) -> Violation: outcomes stay consistent, so Hypothesis never sees flakiness
 
     def wrapped(case):
+        h = sha(case)
+        if h in failed:
+            holder["v"], holder["case"] = failed[h], case
+            raise Violation(failed[h].signature, failed[h].detail)
         if holder.get("v") is not None:
             holder["post"] += 1
             if holder["post"] > shrink_calls:
-                # shrink budget used up: pretend everything else passes, except the best case
-                if sha(case) == holder["sha"]:
-                    raise Violation(holder["v"].signature, holder["v"].detail)
-                return
+                return  # shrink budget used up: every new candidate counts as passing
         try:
             check(case)
         except Violation as v:
@@ -131,9 +133,9 @@ def hyp_search(ctx, strategy, check, max_examples, label="main", shrink_calls=40
                 return
             if holder.get("v") is not None and v.signature != holder["v"].signature:
                 return  # keep shrinking towards the same root cause
+            failed[h] = v
             holder["v"] = v
             holder["case"] = case
-            holder["sha"] = sha(case)
             raise
 
     phases = [Phase.generate, Phase.shrink]
